@@ -19,7 +19,7 @@ ID = "C16"
 LEVEL = "exploration"
 TECHNIQUE = "deterministic simulation: foreign-server streams (as C15) delivered to the real client while callbacks with every filter combination (plain, coroutine, raising) are registered and removed between deliveries; each callback's log is compared with the events an independent reference interpreter derives from consecutive snapshots; per-object value/state chains are checked"
 RULE = ("scenario = message stream as in C15 x callback operations between deliveries: onevent(device/vector/element each absent, matching or "
-        "non-matching; event type in {Base, Value, State, Definition}; plain | coroutine | raising), rmonevent(uuid), rmonevent(criteria) x "
+        "non-matching; event type in {Base, Value, State, Definition}; plain | coroutine | raising RuntimeError | raising asyncio.CancelledError), rmonevent(uuid), rmonevent(criteria) x "
         "world {network client, in-process snooper} x fragmentation; distinct = (filter shapes, callback kinds, removal kinds, situations); "
         "non-trivial = at least one callback received at least one event and at least one callback operation happened mid-stream")
 COMPONENTS = {
@@ -55,7 +55,7 @@ def generate(seed, tier, index):
         f = {"op": "onevent", "id": ncb,
              "device": rng.choice([None, None, "DA", "DB", "DZ"]), "vector": rng.choice([None, None, "P1", "P2", "P9"]),
              "element": rng.choice([None, None, None, "E1", "E2", "E9"]), "type": rng.choice(["Base", "Base", "Value", "State", "Definition"]),
-             "kind": rng.choice(["plain", "plain", "plain", "coro", "coro", "raising", "raising_coro"])}
+             "kind": rng.choice(["plain", "plain", "plain", "coro", "coro", "raising", "raising_coro", "raising_cancelled"])}
         ncb += 1
         return f
 
@@ -198,6 +198,15 @@ def execute(scen):
             def raising(self, ev):
                 self._log(ev)
                 raise RuntimeError("callback failure injected")
+
+            def raising_cancelled(self, ev):
+                # what a callback that looks at the outcome of a cancelled job raises: asyncio.CancelledError, which is
+                # not an Exception subclass
+                self._log(ev)
+                import asyncio
+                fut = sim.loop.create_future()
+                fut.cancel()
+                fut.result()
 
             async def raising_coro(self, ev):
                 self._log(ev)
@@ -362,6 +371,8 @@ def execute(scen):
         shapes = tuple(sorted({(c["filter"]["device"] is not None, c["filter"]["vector"] is not None, c["filter"]["element"] is not None, c["filter"]["type"]) for c in cbs.values()}))
         if any(c["kind"] == "raising" and c["log"] for c in cbs.values()):
             probes["raising_callback_invoked"] = 1
+        if any(c["kind"] == "raising_cancelled" and c["log"] for c in cbs.values()):
+            probes["callback_raising_CancelledError_invoked"] = 1
         digest = sim.digest() + repr([(cid, [e for e, _ in c["log"]]) for cid, c in sorted(cbs.items())])
         import hashlib
         digest = hashlib.sha256(digest.encode("utf-8", "backslashreplace")).hexdigest()
